@@ -610,6 +610,8 @@ def parse_connection_path(path: str, auto_slot: bool = False) -> Tuple[str, Opti
         if ':' in ip:
             ip, port = ip.split(':')
             try:
+                if not (port.isascii() and port.isdigit()):  # int() also takes signs, blanks, underscores, other digits
+                    raise ValueError(port)
                 port = int(port)
             except Exception as err:
                 raise RequestError(f'Invalid port: {port}')
@@ -650,7 +652,7 @@ def parse_cip_route(path: Union[str, List[str]], auto_slot: bool = False) -> Lis
                 )
             pairs = (segments[i : i + 2] for i in range(0, len(segments), 2))
             _path = [
-                PortSegment(int(port) if port.isdigit() else port, link) for port, link in pairs
+                PortSegment(int(port) if (port.isascii() and port.isdigit()) else port, link) for port, link in pairs
             ]
     except RequestError:
         raise
